@@ -143,10 +143,6 @@ StoreOp(s, a, v)       == DataWriteOp(s, a, v, FALSE)
 \* Teakra::Reset: memset(raw, 0), miu.Reset(); the plain MMIO cells keep their storage (as coded)
 ResetOp(s) == Res([Fresh EXCEPT !.io = s.io], 0, <<>>, "ok")
 
-\* sequencing inside one guest instruction: stop at the first non-ok outcome
-Then(r, F(_)) == IF r.out # "ok" THEN r
-                 ELSE LET n == F(r.st) IN Res(n.st, n.val, r.acc \o n.acc, n.out)
-
 -----------------------------------------------------------------------------
 (* State machine: every history of accessor calls (model checking).  `last`  *)
 (* describes the call that led to the state; it is kept out of the           *)
@@ -154,7 +150,17 @@ Then(r, F(_)) == IF r.out # "ok" THEN r
 VARIABLES st, last
 vars == <<st, last>>
 
-Call(k, a, v, bp, r) == /\ st' = r.st
+\* the bound of the exhaustive exploration: number of components in which a state differs from the
+\* fresh state (non-zero memory bytes, non-zero MMIO cells, MIU registers off their reset value).
+\* Every state within the bound is explored, from every history that stays within it.  (The bound is
+\* part of the action rather than a CONSTRAINT: TLC evaluates the invariants again on every generated
+\* out-of-constraint state, which costs a factor 400 here.)
+B2N(b) == IF b THEN 1 ELSE 0
+Dev(s) == Cardinality(DOMAIN s.mem) + Cardinality(DOMAIN s.io) + B2N(s.pm # 0) + B2N(s.xp # 0)
+          + B2N(s.yp # 0) + B2N(s.zp # 0) + B2N(s.xsz # DefXSize) + B2N(s.base # DefBase)
+
+Call(k, a, v, bp, r) == /\ Dev(r.st) <= Budget
+                        /\ st' = r.st
                         /\ last' = [kind |-> k, a |-> a, v |-> v, bp |-> bp, val |-> r.val, acc |-> r.acc, out |-> r.out]
 
 Init == st = Fresh /\ last = [kind |-> "Init", a |-> 0, v |-> 0, bp |-> FALSE, val |-> 0, acc |-> <<>>, out |-> "ok"]
@@ -186,13 +192,6 @@ Next ==
 
 Spec == Init /\ [][Next]_vars
 
-\* the bound of the exhaustive exploration: number of components in which a state differs from the
-\* fresh state (non-zero memory bytes, non-zero MMIO cells, MIU registers off their reset value).
-\* Every state within the bound is explored from every history that stays within it.
-B2N(b) == IF b THEN 1 ELSE 0
-Dev(s) == Cardinality(DOMAIN s.mem) + Cardinality(DOMAIN s.io) + B2N(s.pm # 0) + B2N(s.xp # 0)
-          + B2N(s.yp # 0) + B2N(s.zp # 0) + B2N(s.xsz # DefXSize) + B2N(s.base # DefBase)
-WithinBudget == Dev(st) <= Budget
 StView == st
 
 -----------------------------------------------------------------------------
@@ -328,6 +327,11 @@ WritesHitOneCell ==
           /\ Changed \subseteq {last'.acc[1][1], last'.acc[1][1] + 1}
           /\ LE(st'.mem, last'.acc[1][1]) = last'.v
           /\ [st' EXCEPT !.mem = st.mem] = st]_vars
+
+\* Teakra::Reset zeroes the whole memory and puts the MIU registers back (the trace specification
+\* relies on it: a cell never written since the last Reset reads 0 through every view)
+ResetZeroesMemory ==
+    [][last'.kind = "Reset" => st'.mem = Empty /\ [st' EXCEPT !.io = Empty] = Fresh]_vars
 
 \* a failed assertion leaves everything as it was
 AssertChangesNothing == [][last'.out = "assert" => st' = st /\ last'.acc = <<>>]_vars
